@@ -15,6 +15,8 @@ pub(crate) enum OperationType {
     TryUpdateActiveBlob = 5,
     DeferredDumpBlobIndexes = 6,
     TryFsyncData = 7,
+    #[cfg(pearl_verif)]
+    VerifQuiesce = 100,
 }
 
 #[derive(Debug)]
@@ -40,11 +42,23 @@ pub type ActiveBlobPred = fn(Option<ActiveBlobStat>) -> bool;
 pub(crate) struct Msg {
     pub(crate) optype: OperationType,
     pub(crate) predicate: Option<ActiveBlobPred>,
+    #[cfg(pearl_verif)]
+    pub(crate) verif_reply: Option<tokio::sync::oneshot::Sender<()>>,
 }
 
 impl Msg {
+    #[cfg(not(pearl_verif))]
     pub(crate) fn new(optype: OperationType, predicate: Option<ActiveBlobPred>) -> Self {
         Self { optype, predicate }
+    }
+
+    #[cfg(pearl_verif)]
+    pub(crate) fn new(optype: OperationType, predicate: Option<ActiveBlobPred>) -> Self {
+        Self {
+            optype,
+            predicate,
+            verif_reply: None,
+        }
     }
 }
 
@@ -148,6 +162,24 @@ where
     pub(crate) async fn try_fsync_data(&self) {
         self.send_msg(Msg::new(OperationType::TryFsyncData, None))
             .await
+    }
+
+    /// Verification hook: waits until every message queued so far has been processed and the
+    /// background dump / fsync tasks (including a registered deferred dump) have finished.
+    /// Returns false if the worker is not running any more.
+    #[cfg(pearl_verif)]
+    pub(crate) async fn verif_quiesce(&self) -> bool {
+        if let ObserverState::Running(sender, _) = &self.state {
+            let (tx, rx) = tokio::sync::oneshot::channel();
+            let mut msg = Msg::new(OperationType::VerifQuiesce, None);
+            msg.verif_reply = Some(tx);
+            if sender.send(msg).await.is_err() {
+                return false;
+            }
+            rx.await.is_ok()
+        } else {
+            false
+        }
     }
 
     async fn send_msg(&self, msg: Msg) {
